@@ -118,7 +118,7 @@ impl<const N: u32> PxE1<{ N }> {
             let mut frac64_b = (frac_b as u64) << 32;
 
             //This is 4kZ + expZ; (where kZ=k_a-kB and expZ=exp-expB)
-            shift_right = (shift_right << 2) + (exp as i16) - (exp_b as i16);
+            shift_right = (shift_right << 1) + (exp as i16) - (exp_b as i16);
 
             if shift_right == 0 {
                 frac64 += frac64_b;
@@ -246,7 +246,7 @@ impl<const N: u32> PxE1<{ N }> {
             let mut frac64_b = (frac_b as u64) << 32;
 
             //This is 4kZ + expZ; (where kZ=kA-kB and expZ=exp-expB)
-            shift_right = (shift_right << 2) + (exp as i16) - (exp_b as i16);
+            shift_right = (shift_right << 1) + (exp as i16) - (exp_b as i16);
 
             if shift_right > 60 {
                 return Self::from_bits(if sign { ui_a.wrapping_neg() } else { ui_a });
